@@ -310,7 +310,14 @@ def run(ck, only=None):
         open(P("bom.h"), "wb").write(b"\xef\xbb\xbfint with_bom;\n")
         open(P("crlf.h"), "wb").write(b"struct C {\r\n  int x;\r\n};\r\n")
         open(P("macro_div0.h"), "w").write("#define DZ (1 / 0)\n#define MZ (7 % 0)\n#define UZ (1u / (2 - 2))\n#define SHL (1 << 100)\n#define SHN (1 << -1)\n#define OVF (9223372036854775807 + 1)\n#define MINDIV (0x8000000000000000 / -1)\nint after_macros;\n")
+        open(P("macro_bounds.h"), "w").write("".join(f"#define B{i} {v}\n" for i, v in enumerate([
+            "0x8000000000000000", "(1 << 63)", "(-9223372036854775807 - 1)", "0xffffffffffffffff", "(-1)", "(-128)", "(-129)", "(-32768)", "(-32769)",
+            "(-2147483648)", "(-2147483649)", "255", "256", "65535", "65536", "4294967295", "4294967296", "9223372036854775807", "(0 - 0x7fffffffffffffff)",
+            "(~0)", "(~0ull)", "(-0x8000000000000000)", "18446744073709551615u", "1e400", "0x1p-1080", "'\\377'", "(1 ? -1 : 1u)"])) + "int after_bounds;\n")
         faults = [
+            ("macro-boundaries-default", [P("macro_bounds.h")], "ok"), ("macro-boundaries-fit", [P("macro_bounds.h"), "--fit-macro-constant-types"], "ok"),
+            ("macro-boundaries-fit-signed", [P("macro_bounds.h"), "--fit-macro-constant-types", "--default-macro-constant-type", "signed"], "ok"),
+            ("macro-boundaries-fallback", [P("macro_bounds.h"), "--clang-macro-fallback", "--clang-macro-fallback-build-dir", wd], "ok"),
             ("missing", [P("missing.h")], "NotExist"), ("directory", [P("a_dir.h")], "FolderAsHeader"),
             ("mode000", [P("mode000.h")], "InsufficientPermissions"), ("mode200", [P("mode200.h")], "InsufficientPermissions"),
             ("dangling-symlink", [P("dangling.h")], "NotExist"), ("symlink-loop", [P("loop.h")], "NotExist"),
